@@ -385,6 +385,25 @@ theorem bounds_empty (fromA toA : Aff) (shape : Ax → Int) (roundOut : Bool) (i
   unfold v2v refToIdx
   simp [hinv, boundsFail]
 
+/-! ## The hand-written sequencing is the sequencing of the source -/
+
+/-- **Structural obligation.**  `Gen.mgSteps`, `Gen.v2vSteps`, `Gen.refIdxSteps` are regenerated on
+every run from the AST of `match_geometry`, `VolumeToVolumeTransformer.__init__/__call__` and
+`map_reference_to_indices`: the ordered list of their top-level operations (for `match_geometry` with
+each operation's guard over `requires_permute / requires_pad / requires_crop`; the arguments of every
+call, the initialisation of the accumulators and flags and what the loops range over are checked
+textually).  Executing those lists is *equal*, for all inputs, to the staged definitions
+`matchGeometry`, `v2v`, `refToIdx` that every theorem above is about — so a reordering (crop before
+pad, bounds check before rounding, …), a changed guard or a dropped step breaks this proof. -/
+theorem model_follows_source_order :
+    (∀ {α : Type} (src : Vol α) (tgt : Geom) (tol : Rat) (mode : PadMode α),
+      matchBySource src tgt tol mode = matchGeometry src tgt tol mode) ∧
+    (∀ (fromA toA : Aff) (shape : Ax → Int) (roundOut check : Bool) (pts : List V3),
+      v2vBySource fromA toA shape roundOut check pts = v2v fromA toA shape roundOut check pts) ∧
+    (∀ (A : Aff) (shape : Ax → Int) (roundOut check : Bool) (pts : List V3),
+      refToIdxBySource A shape roundOut check pts = refToIdx A shape roundOut check pts) :=
+  ⟨fun src tgt tol mode => match_follows src tgt tol mode, v2v_follows, refToIdx_follows⟩
+
 /-! ## Non-vacuity: the hypotheses are satisfiable by concrete non-trivial inputs -/
 
 /-- a 2×3×4 source: axis 0 along x, axis 1 along y (spacing 1/2), axis 2 along z (spacing 2);
